@@ -5,6 +5,9 @@ with nested message calls:
     relation `WRel` the per-frame lemmas speak about;
   * `RelC`: the running frame (`R`), its account, its call depth, the world, and — pointwise — the suspended callers
     (`ContRel`) against the suspended concrete callers (`CCont`);
+  * CREATE: the relation is stated against `wd w0 created nonce` — the start world with the code of the accounts created
+    on the path and the allocator counter advanced —, suspended creators (`Cont.create`, `CCont.cr`) resume through
+    `createEnd_rel` (code installation / rollback / EIP-211 return data);
   * the three ways a step of the frame-stack machine moves: an ordinary instruction of the running frame, the end of
     the running frame (`frameEnd`: a result, or the caller resumed), a call instruction (`callOut`).
 -/
